@@ -258,3 +258,22 @@ claim("C16", "other",
       "in the evidence. Fixed in this round: maps dropping cells of two different environments were rejected.",
       "deductive over values (symbolic execution of real source + SMT) for exhaustively enumerated small shapes and index maps: bounded stand-in",
       "DESIGN.md 3/C16")
+
+claim("C12", "proof",
+      "Dictionary layer, symbolic (real *_to_dict / *_from_dict executed by the path engine; quantities travel as the text "
+      "str(UnitValue) with symbolic number atoms and come back through parse_unitvalue): for networks with scalar and "
+      "per-environment densities / diffusion coefficients / chemostat flags / rate constants and unit systems at network, species "
+      "and reaction level, grids (all boundary conditions), graphs with nodes and edges carrying their own units, systems with "
+      "explicit state and chemostat map, and scripts with every parameter, from_dict(to_dict(x)) has the same physical content "
+      "as x (SI comparison, dimensions, unit systems, labels, stoichiometry, geometry, flags, policy, processing mode, seed) and "
+      "to_dict(from_dict(to_dict(x))) equals to_dict(x) leaf by leaf; the space reader dispatches on 'type'. The readers' "
+      "aliases/defaults/units inheritance are C04's reader cases (included). JSON text and file layers are checked on concrete "
+      "random models on the untouched code (bounded stand-in): json.dumps/loads round trip with identical re-serialisation, "
+      "save/load of network, system, script, a multi-file layout with relative paths and an external .npy state read from "
+      "another working directory, and save/load of a simulated trajectory in both storage modes.",
+      "Structure (2 species, 2 reactions, 2 environments, grid 2x3x1 / 2x1x1, 3-node graph) is fixed per case; numbers, flags and "
+      "unit systems are symbolic. t_max is taken positive in the script cases. JSON/file layers are concrete (the JSON encoder and "
+      "numpy's file format are C code): bounded. Exhaustive alias enumeration is C20's. Fixed in this round: NameError in "
+      "rdgraphspaceedge_to_dict, init_state_processing dropped by the script dictionary, save_rdscript unusable.",
+      "deductive: symbolic execution of real source (token strings) + SMT; bounded concrete conformance for the JSON and file layers",
+      "DESIGN.md 3/C12")
